@@ -114,7 +114,13 @@ TBuild ==
             /\ UNCHANGED st
        ELSE LET exp == RunBlock(st, T.hdr, T.txs, T.prices, R)
                 om  == IF exp.valid THEN ExpOverMax(exp, T.txs) ELSE {}
-            IN /\ diag' =
+                \* structural faults of the built list reject the line on their own; the expected outcome of such a block
+                \* is not computed (a block of several hundred transactions holding repeats is very slow to evaluate)
+                struct == (IF ~(SeqSet(T.built) \subseteq SeqSet(T.poolids)) THEN {"built-tx-not-from-mempool"} ELSE {}) \cup
+                          (IF Cardinality(SeqSet(T.built)) # Len(T.built) THEN {"tx-twice-in-built-block"} ELSE {}) \cup
+                          (IF SeqSet(T.built) \cap SeqSet(T.ancestors) # {} THEN {"builder-included-replay"} ELSE {})
+            IN IF struct # {} THEN diag' = struct /\ UNCHANGED st ELSE
+               /\ diag' =
                     (IF ~exp.valid THEN {"built-block-is-invalid"} ELSE
                        ResDiag("build-", exp, T.bout) \cup PostDiag("build-", exp, T.bout) \cup
                        (IF T.vout.err # "" THEN {"verification-rejected-built-block"}
@@ -150,12 +156,13 @@ TReplay ==
               (IF T.err \notin {"", "duplicate"} /\ ~T.expired THEN {"replay-rejected-for-another-reason"} ELSE {})
   /\ UNCHANGED <<st, R, lastBid, lastRoot>>
 
-(* C12, overflow: storage units in multiples of 2^60 (all per-key costs zero); a dimension overflows uint64 exactly
-   when its sum reaches 16 such units; Units must then fail, otherwise report the exact sums *)
+(* C12, overflow: storage units in multiples of 2^60 (per-chunk costs T.cost, per-key costs T.keycost, paid by every
+   declared key whatever its chunk suffix, 0 included); a dimension overflows uint64 exactly when its sum reaches 16
+   such units; Units must then fail, otherwise report the exact sums *)
 TUnitsRow ==
   /\ Ev("unitsrow")
   /\ LET tot == SumSeq(T.chunks)
-         exp == [d \in 1..3 |-> tot * T.cost[d]]
+         exp == [d \in 1..3 |-> tot * T.cost[d] + Len(T.chunks) * T.keycost[d]]
          over == \E d \in 1..3 : exp[d] >= 16
      IN diag' = (IF over /\ ~T.err THEN {"unit-overflow-not-rejected"} ELSE {}) \cup
                 (IF ~over /\ T.err THEN {"units-rejected-without-overflow"} ELSE {}) \cup
